@@ -30,6 +30,8 @@ func init() {
 				Doc: "Header order on ties: equal q keeps header order. sort.Slice/sort.Sort are not stable (only small inputs happen to be), and a non-strict insertion test reverses ties."},
 			{ID: "C05.g", Template: "T-PROV", Required: true, Run: ruleC15e,
 				Doc: "The Response the handler writes to is the one that was given the route's Produces and the request's Accept: a framework filter continues the chain with the very pair it received, never with a new wrapper (which knows neither and negotiates against nothing)."},
+			{ID: "C05.j", Template: "T-TOKEN", Required: false, Run: ruleNumberFullyCut,
+				Doc: "A q-value is parsed from a piece that was cut at every separator of its level. The last element of SplitN(piece, \";\", 2) or the part after strings.Cut is everything behind the first ';': with a further parameter behind the q-value the number does not parse, the range counts as q=1 and a representation the client ranked low is chosen."},
 			{ID: "C05.i", Template: "T-SIBLING", Required: true, Run: ruleFoldingAgreement,
 				Doc: "Where a token of Accept/Content-Type is compared for equality with a declared media type, both operands were case-folded by the same functions, or neither. Lower-casing the media ranges of the header while Produces entries are compared as declared makes a declared type with capitals unselectable by the writer although the router admits the request."},
 			{ID: "C05.h", Template: "T-SIBLING", Required: true, Run: ruleKeyAgreement,
